@@ -27,7 +27,7 @@ T == <<"p", "q">>                       \* everything lives under root/p/q
 P(x) == T \o x
 NoFile == <<"NONE">>
 
-Optional == {"in", "inl", "g", "sib", "sec", "lnkf", "lnkd", "back", "lnkx"}
+Optional == {"in", "inl", "g", "sib", "sec", "lnkf", "lnkd", "back", "lnkx", "lnkl"}
 
 VARIABLES layout, base, req, result, done
 vars == <<layout, base, req, result, done>>
@@ -54,6 +54,7 @@ FS(L) ==
              @@ opt("lnkd", P(<<"dir", "lnkd">>), Link(P(<<"out">>)))
              @@ opt("back", P(<<"out", "back">>), Link(P(<<"dir">>)))
              @@ opt("lnkx", P(<<"dir", "lnk.tex">>), Link(P(<<"out", "secret.tex">>)))
+             @@ opt("lnkl", P(<<"dir", "lnk2.latex">>), Link(P(<<"out", "secret.tex">>)))
 
 Front(sq) == SubSeq(sq, 1, Len(sq) - 1)
 
